@@ -80,6 +80,15 @@ CHECKS = {
              "emitted shape is rendered, compiled with CompileProfile and run once.",
         ref="DESIGN.md §6 C07", technique="TLA+ model of identifier allocation + TLC-enumerated shape space replayed into CompileProfile",
         note=TLC_NOTE + " The accepting oracle is OPA's compiler itself; nesting depth is capped at 8 because OPA's compile time grows ~3.5x per level."),
+    "C08": dict(
+        text="spec/Sandbox.tla is the capability gate as a state machine (compose -> compile -> accepted|rejected -> evaluate) over "
+             "built-ins x embedding positions x call syntaxes; TLC checks that no dangerous capability is ever exercised and that "
+             "nothing is evaluated after a rejection (refuted for the deny-list of the pinned tree), and enumerates the full "
+             "product (5 dangerous + 2 control built-ins x 18 positions x 10 syntaxes); every composed profile is compiled and "
+             "validated for real in a process instrumented to record outbound attempts; controls must compile, dangerous calls "
+             "must be rejected with the engine's unsafe-built-in error.",
+        ref="DESIGN.md §6 C08", technique="TLA+ state machine of the gate + TLC-enumerated full product replayed into CompileProfile/Validate",
+        note=TLC_NOTE + " OPA's compiler is the accepting oracle; the dangerous set is the property's list, checked to exist in the linked engine."),
 }
 
 NOT_YET = "no check registered yet for this property in the current state of the framework (design in DESIGN.md §6)"
